@@ -713,6 +713,13 @@ func NewExocoreApp(
 		app.EpochsKeeper,
 	)
 
+	// the precompiles receive the delegation keeper BY VALUE: its hooks must be set before the copy is
+	// made, otherwise delegations and undelegations that arrive through the gateway precompile never
+	// reach dogfood's hooks (no hold on the undelegation of an active validator, no vote power update).
+	(&app.DelegationKeeper).SetHooks(
+		app.StakingKeeper.DelegationHooks(),
+	)
+
 	app.EvmKeeper.WithPrecompiles(
 		evmkeeper.AvailablePrecompiles(
 			app.AuthzKeeper,
@@ -790,10 +797,6 @@ func NewExocoreApp(
 	// set the hooks at the end, after all modules are instantiated.
 	(&app.OperatorKeeper).SetHooks(
 		app.StakingKeeper.OperatorHooks(),
-	)
-
-	(&app.DelegationKeeper).SetHooks(
-		app.StakingKeeper.DelegationHooks(),
 	)
 
 	(&app.EpochsKeeper).SetHooks(
